@@ -6,7 +6,8 @@
 
 Source: lib_guesser/pcfg_grammar.py, class PcfgGrammar, the functions of SPECS
 (_find_prob, _are_you_my_child, find_children, is_parent_around,
-_recursive_restore_prob_order, initalize_base_structures).
+_recursive_restore_prob_order, initalize_base_structures) and, inlined on demand, the
+other methods of the class they call.
 The source is only parsed (`ast`), never imported or executed.  The output
 (coq/gen/Kernel_gen.v) targets the small runtime coq/theories/KernelRt.v, and
 coq/theories/KernelGenProofs.v proves each generated definition equal to the
@@ -19,15 +20,18 @@ Accepted subset (anything else raises TranslateError with file:line):
   types      P (probability), nat (Python int >= 0), bool, node (a (variable, index)
              tuple), pt (list of nodes), item (the dict with keys 'pt', 'base_prob',
              'prob'), items (list of items); base / bases / vars (an entry of self.base,
-             self.base, its 'replacements').  Parameter and return types are given by
-             SPECS (checked against the `def` line: names, order, defaults); the types
-             of locals are inferred.
-  statements x = e;  x *= e (probabilities);  x = copy.copy(y) / x = [] (fresh local
-             lists);  x[i] = e and x.append(e) on such a fresh list only, as long as it
-             has not been stored anywhere;  if / elif / else (a conditional that is
-             followed by more statements either leaves on one side or contains no
-             control flow);  for p, x in enumerate(l) / for x in l / for p in range(a, b)
-             (no else; the iterated list is not touched in the body);  continue;
+             self.base, its 'replacements'); row / group (self.grammar[t], an entry
+             self.grammar[t][i] of it - represented by its 'prob', the only key the model's
+             table has).  Parameter and return types are given by SPECS (checked against the
+             `def` line: names, order, defaults); the types of locals are inferred.
+  statements x = e;  a, b = node;  x *= e (probabilities);  x += e (ints);  x = copy.copy(y) /
+             list(y) / y.copy() / y[:] / x = [] / x = [comprehension] / x = self.helper(...)
+             returning such a list (fresh local lists);  x[i] = e and x.append(e) on such a
+             fresh list only, as long as it has not been stored anywhere;  if / elif / else
+             (a conditional that is followed by more statements either leaves on one side
+             or contains no control flow);  for p, x in enumerate(l) / for x in l /
+             for p in range(a, b) / range(b), where x may be a pair target `(a, b)` (no
+             else; the iterated list is not touched in the body);  continue;
              return [e];  save_function(e) and the call of the function itself as
              statements in the function SPECS marks as recursive;  a docstring;  pass.
              An item dict built key by key: d = {some of the item keys: ...} ('pt': []
@@ -37,12 +41,35 @@ Accepted subset (anything else raises TranslateError with file:line):
   expressions names;  int >= 0, True, False;  e[0], e[1] on a node;  l[i] on a pt;
              d['pt'], d['base_prob'], d['prob'] on an item;  b['prob'],
              b['replacements'] on an entry of self.base;  self.base (as iterated list);
-             self.grammar[t][i]['prob'];  len(self.grammar[t]);  len(l);
-             a + b on ints;  a - 1 on ints only where a dominating `if a == 0:
-             continue/return` shows a > 0 (tracked through copies and enumerate);
+             self.grammar[t] (a row), row[i] (a group), group['prob'];  len(l) of a row, pt,
+             items, vars;  a + b on ints;  a - 1 on ints only where a dominating test shows
+             a > 0: the false side of `a == 0`, `a <= 0`, `a < 1`, the true side of
+             `a != 0`, `a > 0`, `a >= 1`, `a > b`, `b < a`, truthiness `if a:`, also through
+             `not`, as a conjunct of an `and` that holds / a disjunct of an `or` that fails
+             (`if x == y or a == 0: continue`), for the later operands of the same
+             `and` / `or` and in the branches of `e1 if c else e2` (tracked through copies,
+             enumerate and the parameters of inlined helpers);  a + (-1), (-1) + a as a - 1;
              a < b, a <= b, a > b, a >= b, a == b, a != b between two probabilities or
-             two ints;  p * q on two probabilities;  not e;  e1 and e2, e1 or e2 on booleans;  (a, b);  the dict literal with exactly the three item
-             keys;  calls self.f(...) of an already translated function of SPECS.
+             two ints, where `a - 1 OP b` with a not known > 0 is translated as
+             `a OP b + 1` (the same over the integers: len(l) - 1 == i, i < len(l) - 1);  p * q on two probabilities;  not e;  e1 and e2, e1 or e2;  the
+             truthiness of an int (!= 0) or list (non-empty) as a condition;
+             e1 if c else e2;  (a, b);  the dict literal with exactly the three item keys;
+             [e for x in l] / [e for x in l if c] over a pt or a 'replacements' list (map /
+             filter);  calls self.f(...) of an already translated function of SPECS;
+  helpers    a call self.h(...) of any other plain method of the class (no decorator, no
+             */** parameters, defaults int literals) is INLINED at the call: the body of h
+             is translated in place with the parameters let-bound to the arguments (an int
+             literal argument, also a negative one such as the `-1` of `_step_pt(pt, pos,
+             -1)`, is substituted, so that `x + step` becomes `x - 1` under the same
+             `> 0` discipline).  The parameter types are those of the arguments.  No
+             recursion among helpers; nesting depth <= MAX_INLINE_DEPTH; h must return a
+             value on every path and may not call the callback.  The sha256 of every
+             inlined helper is listed in the header comment of the generated function.
+
+The generated functions take the "undefined values" (see below) as explicit first
+parameters; which ones is fixed per function in SPECS (the equality theorems and the
+Props files apply the functions to them), not derived from the body: a body that needs
+one its function does not have is refused.
 
 What the translation does NOT model: exceptions (a subscript out of range is the
 total `sub undef l i`, with `undef` a parameter of the generated section - the
@@ -72,27 +99,35 @@ OUT = os.path.join("gen", "Kernel_gen.v")
 # ------------------------------------------------------------------ types
 P, NAT, BOOL, NODE, PT, ITEM, ITEMS, SAVE, UNIT = "P", "nat", "bool", "node", "pt", "item", "items", "save", "unit"
 BASE, BASES, VARS = "base", "bases", "vars"      # an entry of self.base, self.base, its 'replacements'
+GROUP, ROW = "group", "row"                      # self.grammar[t][i] (represented by its 'prob': the model's table has
+#                                                  nothing else), self.grammar[t] (the list of these)
 COQ_TYPE = {
     P: "ProbAlg.P A", NAT: "nat", BOOL: "bool", NODE: "(Next.var * nat)", PT: "Next.pt",
-    ITEM: "Next.item A", ITEMS: "list (Next.item A)",
+    ITEM: "Next.item A", ITEMS: "list (Next.item A)", GROUP: "ProbAlg.P A", ROW: "list (ProbAlg.P A)",
 }
+LOCAL_TYPES = (P, NAT, BOOL, NODE, PT, ITEM, ITEMS, GROUP, ROW, BASE, VARS)      # what a local variable may hold
+MAX_INLINE_DEPTH = 4
 ITEM_KEYS = {"pt": ("ipt", PT), "base_prob": ("ibase", P), "prob": ("iprob", P)}
 
+# undef: the "undefined values" (the value of a subscript that raises in Python, see KernelRt.v) the generated function
+# takes as its first arguments.  The list is fixed here and not derived from the body, because the statements of the
+# equality theorems (KernelGenProofs.v, Props/C02.v C08.v C17.v) apply the functions to them.
+UNDEF_TYPE = {"undef_prob": "ProbAlg.P A", "undef_node": "Next.var * nat"}
 SPECS = [
-    dict(py="_find_prob", coq="py_find_prob",
+    dict(py="_find_prob", coq="py_find_prob", undef=["undef_prob"],
          params=[("pt", PT), ("base_prob", P)], ret=P),
-    dict(py="_are_you_my_child", coq="py_are_you_my_child",
+    dict(py="_are_you_my_child", coq="py_are_you_my_child", undef=["undef_prob", "undef_node"],
          params=[("child", PT), ("base_prob", P), ("parent_pos", NAT), ("parent_prob", P)], ret=BOOL),
-    dict(py="find_children", coq="py_find_children",
+    dict(py="find_children", coq="py_find_children", undef=["undef_prob", "undef_node"],
          params=[("pt_item", ITEM)], ret=ITEMS),
-    dict(py="is_parent_around", coq="py_is_parent_around",
+    dict(py="is_parent_around", coq="py_is_parent_around", undef=["undef_prob", "undef_node"],
          params=[("pt_item", ITEM), ("max_prob", P)], ret=BOOL),
     # returns None; its observable effect is the sequence of save_function calls,
     # which is what the generated function returns
-    dict(py="_recursive_restore_prob_order", coq="py_restore",
+    dict(py="_recursive_restore_prob_order", coq="py_restore", undef=["undef_prob", "undef_node"],
          params=[("pt_item", ITEM), ("max_prob", P), ("min_prob", P), ("save_function", SAVE), ("left_index", NAT)],
          ret=UNIT, recursive=True, defaults={"left_index": 0}),
-    dict(py="initalize_base_structures", coq="py_initalize_base_structures", params=[], ret=ITEMS),
+    dict(py="initalize_base_structures", coq="py_initalize_base_structures", undef=["undef_prob"], params=[], ret=ITEMS),
 ]
 
 # identifiers the generated text uses itself: a Python variable of that name is refused
@@ -100,7 +135,7 @@ RESERVED = set("""A P rs fuel fuel' saved undef_prob undef_node tt true false fs
 append extend for_enum for_each for_range for_from Continue Return ctl plt ple peq pmul negb andb orb
 itag ipt ibase iprob bprob brepl tbl bases nth seq nil cons list nat bool unit O S pred fun let in if then else match with end
 forall exists Type Prop Set as at return fix cofix struct where Definition Fixpoint Section End Next ProbAlg
-KernelRt Nat""".split()) | {s["coq"] for s in SPECS}
+KernelRt Nat map filter""".split()) | {s["coq"] for s in SPECS}
 
 
 class TranslateError(Exception):
@@ -118,9 +153,12 @@ class Env:
         self.partial = {}      # name -> {"fields": {key: variable}, "escaped": bool}: an item dict
         #                        under construction, kept as one variable per key
         self.tag = None        # text of the ghost tag an item built here gets
+        self.consts = {}       # name -> Python int: a parameter of an inlined helper bound to an int literal
+        #                        (may be negative: `x + step` with step = -1 is `x - 1`)
 
     def copy(self):
         e = Env()
+        e.consts = dict(self.consts)
         e.partial = {n: {"fields": dict(d["fields"]), "escaped": d["escaped"]} for n, d in self.partial.items()}
         e.tag = self.tag
         e.types = dict(self.types)
@@ -177,22 +215,46 @@ def _comment(s):
 
 
 class FunctionTranslator:
-    def __init__(self, path, rel, fn, spec, done):
+    def __init__(self, path, rel, fn, spec, done, helpers=None, parent=None):
         self.path, self.rel, self.fn, self.spec = path, rel, fn, spec
         self.done = done       # py name -> spec of the functions translated before
-        self.uid = 0
+        self.helpers = helpers or {}      # py name -> FunctionDef of the other methods of the class (inlined on demand)
+        self.parent = parent              # the translator of the function this helper is inlined into
+        self.counter = parent.counter if parent else [0]          # shared: the unknowns `?n` are unique per function
+        self.inlined = parent.inlined if parent else {}           # py name -> sha of the helpers inlined so far
+        self.depth = parent.depth + 1 if parent else 0
         self.trace = spec["ret"] == UNIT          # result = record of save_function calls
         self.uses_fuel = bool(spec.get("recursive"))
+        self.last_ret_fresh = False       # the `return x` translated last returned a fresh local list
+        self.fresh_calls = set()          # id() of the helper calls whose inlined body returns a fresh list
 
     # -------------------------------------------------------------- errors
     def fail(self, node, msg):
-        raise TranslateError("%s:%d: %s.%s: %s  [%s]" % (
-            self.path, getattr(node, "lineno", self.fn.lineno), CLASS, self.fn.name, msg,
+        chain, t = "", self.parent
+        while t is not None:
+            chain += " (inlined into %s)" % t.fn.name
+            t = t.parent
+        raise TranslateError("%s:%d: %s.%s%s: %s  [%s]" % (
+            self.path, getattr(node, "lineno", self.fn.lineno), CLASS, self.fn.name, chain, msg,
             _comment(ast.unparse(node)).split("\n")[0][:100]))
 
+    def undef(self, node, name):
+        """the undefined value `name`, which the function being generated must have as a parameter"""
+        top = self
+        while top.parent is not None:
+            top = top.parent
+        if name not in top.spec["undef"]:
+            self.fail(node, "a subscript with the default %s in %s, whose generated signature has only %r "
+                            "(fixed by the equality theorems)" % (name, top.spec["py"], top.spec["undef"]))
+        return name
+
+    def call_spec(self, node, spec):
+        """text of the head of a call of a generated function: name, its undefined values, rs"""
+        return " ".join([spec["coq"]] + [self.undef(node, u) for u in spec["undef"]] + ["rs"])
+
     def opaque(self):
-        self.uid += 1
-        return "?%d" % self.uid
+        self.counter[0] += 1
+        return "?%d" % self.counter[0]
 
     # -------------------------------------------------------------- header
     def check_signature(self):
@@ -227,36 +289,164 @@ class FunctionTranslator:
             return env.sym.get(e.id) or self.opaque()
         if isinstance(e, ast.Constant) and type(e.value) in (int, str):
             return repr(e.value)
+        if self.is_copy(e):
+            return self.sym(self.copied(e), env)
         if isinstance(e, ast.Subscript):
             return "%s[%s]" % (self.sym(e.value, env), self.sym(e.slice, env))
-        if self.is_copy(e):
-            return self.sym(e.args[0], env)
         return self.opaque()
 
     @staticmethod
-    def is_copy(e):
-        return (isinstance(e, ast.Call) and isinstance(e.func, ast.Attribute) and e.func.attr == "copy"
-                and isinstance(e.func.value, ast.Name) and e.func.value.id == "copy"
-                and len(e.args) == 1 and not e.keywords)
+    def copied(e):
+        """the list a shallow copy is taken of: copy.copy(x), list(x), x.copy(), x[:]  ->  x;  else None"""
+        if isinstance(e, ast.Call) and not e.keywords:
+            f = e.func
+            if isinstance(f, ast.Attribute) and f.attr == "copy" and isinstance(f.value, ast.Name) \
+                    and f.value.id == "copy" and len(e.args) == 1:
+                return e.args[0]
+            if isinstance(f, ast.Name) and f.id == "list" and len(e.args) == 1 and not isinstance(e.args[0], ast.Starred):
+                return e.args[0]
+            if isinstance(f, ast.Attribute) and f.attr == "copy" and not e.args \
+                    and not (isinstance(f.value, ast.Name) and f.value.id in ("copy", "self")):
+                return f.value
+        if isinstance(e, ast.Subscript) and isinstance(e.slice, ast.Slice) \
+                and e.slice.lower is None and e.slice.upper is None and e.slice.step is None:
+            return e.value
+        return None
+
+    @classmethod
+    def is_copy(cls, e):
+        return cls.copied(e) is not None
 
     @staticmethod
     def is_self_attr(e, attr=None):
         return (isinstance(e, ast.Attribute) and isinstance(e.value, ast.Name) and e.value.id == "self"
                 and (attr is None or e.attr == attr))
 
-    def grammar_row(self, e, env):
-        """self.grammar[t]  ->  groups rs t"""
-        if isinstance(e, ast.Subscript) and self.is_self_attr(e.value, "grammar"):
-            t, ty = self.expr(e.slice, env)
-            if ty != NAT:
-                self.fail(e, "self.grammar[...] must be indexed by a variable id")
-            return "groups rs %s" % _paren(t)
+    def const_int(self, e, env):
+        """Python value of an int literal, a signed int literal, or a helper parameter bound to one; else None"""
+        if isinstance(e, ast.Constant) and type(e.value) is int:
+            return e.value
+        if isinstance(e, ast.UnaryOp) and isinstance(e.op, (ast.USub, ast.UAdd)):
+            v = self.const_int(e.operand, env)
+            if v is None:
+                return None
+            return -v if isinstance(e.op, ast.USub) else v
+        if isinstance(e, ast.Name) and e.id in env.consts:
+            return env.consts[e.id]
         return None
+
+    def cond(self, e, env):
+        """Gallina bool for a Python expression in a boolean context (if / not / and / or): a bool as it is, the
+        truthiness of an int (!= 0) and of a list (non-empty)"""
+        if isinstance(e, ast.BoolOp):
+            return self.boolop(e, env, self.cond)
+        if isinstance(e, ast.UnaryOp) and isinstance(e.op, ast.Not):
+            return "negb %s" % _paren(self.cond(e.operand, env))
+        t, ty = self.expr(e, env)
+        if ty == BOOL:
+            return t
+        if ty == NAT:
+            return "negb (Nat.eqb %s 0)" % _paren(t)
+        if ty in (PT, ITEMS, VARS, ROW):
+            return "negb (Nat.eqb (length %s) 0)" % _paren(t)
+        self.fail(e, "truthiness of a value of type %s is not supported" % ty)
+
+    def expr_bool(self, e, env):
+        t, ty = self.expr(e, env)
+        if ty != BOOL:
+            self.fail(e, "`and` / `or` of a non-boolean where the value (not only its truth) is used")
+        return t
+
+    def boolop(self, e, env, operand):
+        """`a and b` / `a or b`: the operands are pure, so short-circuit evaluation gives the value of andb / orb (an
+        operand that would raise in Python is the total value of its translation, as everywhere).  A later operand is
+        translated knowing what the earlier ones established (`i != 0 and f(i - 1)`)."""
+        conj = isinstance(e.op, ast.And)
+        env = env.copy()
+        parts = []
+        for v in e.values:
+            parts.append(_paren(operand(v, env)))
+            env.nonzero |= self.facts(v, conj, env)
+        op = "andb" if conj else "orb"
+        acc = parts[-1]
+        for t in reversed(parts[:-1]):
+            acc = "%s %s %s" % (op, t, _paren(acc))
+        return acc
+
+    def facts(self, t, truth, env):
+        """canonical texts of the ints known to be > 0 where the test t has the truth value `truth` (Python ints are
+        naturals in the translation, so `a > b` also shows a > 0)"""
+        if isinstance(t, ast.UnaryOp) and isinstance(t.op, ast.Not):
+            return self.facts(t.operand, not truth, env)
+        if isinstance(t, ast.BoolOp):
+            if isinstance(t.op, ast.And) == truth:        # `and` true: all true;  `or` false: all false
+                out = set()
+                for v in t.values:
+                    out |= self.facts(v, truth, env)
+                return out
+            return set()
+        if isinstance(t, ast.Compare) and len(t.ops) == 1:
+            op = type(t.ops[0]).__name__
+            l, r = t.left, t.comparators[0]
+            if not truth:
+                op = {"Eq": "NotEq", "NotEq": "Eq", "Lt": "GtE", "LtE": "Gt", "Gt": "LtE", "GtE": "Lt"}.get(op)
+            if op is None:
+                return set()
+            cl, cr = self.const_int(l, env), self.const_int(r, env)
+            if cl is not None and cr is None:             # c OP e  ->  e OP' c
+                l, r, cl, cr = r, l, cr, cl
+                op = {"Lt": "Gt", "LtE": "GtE", "Gt": "Lt", "GtE": "LtE"}.get(op, op)
+            if cl is not None:
+                return set()
+            if cr is not None:
+                if (op == "NotEq" and cr == 0) or (op == "Gt" and cr >= 0) or (op == "GtE" and cr >= 1) \
+                        or (op == "Eq" and cr >= 1):
+                    return {self.sym(l, env)}
+                return set()
+            if op == "Gt":                                # l > r >= 0
+                return {self.sym(l, env)}
+            if op == "Lt":                                # r > l >= 0
+                return {self.sym(r, env)}
+            return set()
+        if isinstance(t, (ast.Name, ast.Subscript)) and truth:
+            # truthiness of an int: recorded under its canonical text (harmless when t is no int: the set is only
+            # consulted for the left operand of an int subtraction)
+            return {self.sym(t, env)}
+        return set()
+
+    def arith(self, e, env):
+        """a + b, a - 1 on naturals.  A negative int literal (or a helper parameter bound to one) is accepted as the
+        second summand only: a + (-k) is a - k, a - (-k) is a + k, (-k) + a is a - k."""
+        add = isinstance(e.op, ast.Add)
+        left, right = e.left, e.right
+        cl, cr = self.const_int(left, env), self.const_int(right, env)
+        if cr is not None and cr < 0:
+            add, cr = not add, -cr
+        elif add and cl is not None and cl < 0 and cr is None:
+            add, left, right, cl, cr = False, right, left, None, -cl
+        if cl is not None and cl < 0:
+            self.fail(e, "negative int (ints are naturals)")
+        a, ta = ("%d" % cl, NAT) if cl is not None else self.expr(left, env)
+        b, tb = ("%d" % cr, NAT) if cr is not None else self.expr(right, env)
+        if (ta, tb) != (NAT, NAT):
+            self.fail(e, "arithmetic is supported on ints (+, - 1) and as p * q on probabilities only")
+        if add:
+            return "%s + %s" % (_paren(a), _paren(b)), NAT
+        if cr != 1:
+            self.fail(e, "only `e - 1` is supported (ints are naturals)")
+        if cl is not None or self.sym(left, env) not in env.nonzero:
+            self.fail(e, "`e - 1` where no dominating test (`if e == 0: continue/return`, `if e != 0:`, `if e > 0:`, "
+                         "...) shows e > 0 (ints are naturals)")
+        return "%s - 1" % _paren(a), NAT
 
     def expr(self, e, env):
         """-> (Gallina text, type)"""
         if isinstance(e, ast.Name) and e.id in env.partial:
             return self.built_item(e, env), ITEM
+        if isinstance(e, ast.Name) and e.id in env.consts:
+            if env.consts[e.id] < 0:
+                self.fail(e, "a negative int may only be added to an int (ints are naturals)")
+            return "%d" % env.consts[e.id], NAT
         if self.is_self_attr(e, "base"):
             return "bases rs", BASES
         if isinstance(e, ast.Name):
@@ -282,48 +472,37 @@ class FunctionTranslator:
                 self.fail(e, "a node is a pair of ints")
             return "(%s, %s)" % (a, b), NODE
         if isinstance(e, ast.UnaryOp):
-            if not isinstance(e.op, ast.Not):
-                self.fail(e, "unsupported unary operator")
-            a, ta = self.expr(e.operand, env)
-            if ta != BOOL:
-                self.fail(e, "`not` of a non-boolean")
-            return "negb %s" % _paren(a), BOOL
+            if isinstance(e.op, ast.Not):
+                return "negb %s" % _paren(self.cond(e.operand, env)), BOOL
+            v = self.const_int(e, env)
+            if v is not None and v >= 0:
+                return "%d" % v, NAT
+            self.fail(e, "unsupported unary operator (a negative int may only be added to an int)")
         if isinstance(e, ast.BoolOp):
-            # `a and b` / `a or b` on booleans: the operands are pure, so short-circuit evaluation gives the value of andb / orb
-            # (an operand that would raise in Python is the total value of its translation, as everywhere)
-            parts = []
-            for v in e.values:
-                t, ty = self.expr(v, env)
-                if ty != BOOL:
-                    self.fail(e, "`and` / `or` of a non-boolean")
-                parts.append(_paren(t))
-            op = "andb" if isinstance(e.op, ast.And) else "orb"
-            acc = parts[-1]
-            for t in reversed(parts[:-1]):
-                acc = "%s %s %s" % (op, t, _paren(acc))
-            return acc, BOOL
+            return self.boolop(e, env, self.expr_bool), BOOL
+        if isinstance(e, ast.IfExp):
+            c = self.cond(e.test, env)
+            env_t, env_f = env.copy(), env.copy()
+            env_t.nonzero |= self.facts(e.test, True, env)
+            env_f.nonzero |= self.facts(e.test, False, env)
+            a, ta = self.expr(e.body, env_t)
+            b, tb = self.expr(e.orelse, env_f)
+            if ta != tb or ta not in (P, NAT, BOOL, NODE, GROUP):
+                self.fail(e, "conditional expression of types %s / %s" % (ta, tb))
+            return "if %s then %s else %s" % (c, a, b), ta
         if isinstance(e, ast.BinOp):
+            if isinstance(e.op, (ast.Add, ast.Sub)):
+                return self.arith(e, env)
             a, ta = self.expr(e.left, env)
             b, tb = self.expr(e.right, env)
             if (ta, tb) == (P, P) and isinstance(e.op, ast.Mult):
                 # p * q on probabilities, operands in the order written (x = x * e is x *= e)
                 return "pmul %s %s" % (_paren(a), _paren(b)), P
-            if (ta, tb) != (NAT, NAT):
-                self.fail(e, "arithmetic is supported on ints (+, - 1) and as p * q on probabilities only")
-            if isinstance(e.op, ast.Add):
-                return "%s + %s" % (_paren(a), _paren(b)), NAT
-            if isinstance(e.op, ast.Sub):
-                if not (isinstance(e.right, ast.Constant) and e.right.value == 1):
-                    self.fail(e, "only `e - 1` is supported (ints are naturals)")
-                if self.sym(e.left, env) not in env.nonzero:
-                    self.fail(e, "`e - 1` without a dominating `if e == 0: continue/return` (ints are naturals)")
-                return "%s - 1" % _paren(a), NAT
-            self.fail(e, "unsupported arithmetic operator")
+            self.fail(e, "arithmetic is supported on ints (+, - 1) and as p * q on probabilities only")
         if isinstance(e, ast.Compare):
             if len(e.ops) != 1 or len(e.comparators) != 1:
                 self.fail(e, "chained comparison")
-            a, ta = self.expr(e.left, env)
-            b, tb = self.expr(e.comparators[0], env)
+            (a, ta), (b, tb) = self.compare_operands(e.left, e.comparators[0], env)
             if ta != tb or ta not in (P, NAT):
                 self.fail(e, "comparison of %s with %s" % (ta, tb))
             a, b = _paren(a), _paren(b)
@@ -345,21 +524,75 @@ class FunctionTranslator:
             return self.dict_literal(e, env)
         if isinstance(e, ast.Call):
             return self.call(e, env)
+        if isinstance(e, ast.ListComp):
+            return self.listcomp(e, env)
         self.fail(e, "unsupported expression (%s)" % type(e).__name__)
+
+    def minus_one(self, e, env):
+        """x for an expression `x - 1` / `x + (-1)` whose x is NOT known to be > 0, else None"""
+        if isinstance(e, ast.BinOp) and isinstance(e.op, (ast.Add, ast.Sub)):
+            c = self.const_int(e.right, env)
+            if c is not None and self.const_int(e.left, env) is None \
+                    and c == (1 if isinstance(e.op, ast.Sub) else -1) and self.sym(e.left, env) not in env.nonzero:
+                return e.left
+        return None
+
+    def compare_operands(self, l, r, env):
+        """the operands of a comparison.  `x - 1 OP y` is translated as `x OP y + 1` (the same over the integers, and it
+        needs no `x > 0`):  len(l) - 1 == i,  i < len(l) - 1,  ..."""
+        xl, xr = self.minus_one(l, env), self.minus_one(r, env)
+        if xl is not None and xr is not None:
+            return self.expr(xl, env), self.expr(xr, env)
+        if xl is not None or xr is not None:
+            (a, ta), (b, tb) = self.expr(xl if xl is not None else l, env), self.expr(xr if xr is not None else r, env)
+            if (ta, tb) != (NAT, NAT):
+                self.fail(l, "comparison of %s with %s" % (ta, tb))
+            if xl is not None:
+                return (a, NAT), ("%s + 1" % _paren(b), NAT)
+            return ("%s + 1" % _paren(a), NAT), (b, NAT)
+        return self.expr(l, env), self.expr(r, env)
+
+    def listcomp(self, e, env):
+        """[elt for x in l]  ->  map (fun x => elt) l;   [elt for x in l if c]  ->  map (fun x => elt) (filter (fun x => c) l)
+        (the comprehension has its own scope in Python 3, like the fun)"""
+        if len(e.generators) != 1:
+            self.fail(e, "a comprehension with more than one `for`")
+        g = e.generators[0]
+        if g.is_async or not isinstance(g.target, ast.Name):
+            self.fail(e, "unsupported comprehension")
+        l, tl = self.expr(g.iter, env)
+        elt_ty = {VARS: NAT, PT: NODE}.get(tl)
+        if elt_ty is None:
+            self.fail(e, "comprehension over a value of type %s" % tl)
+        x = g.target.id
+        self.check_name(e, x)
+        if x in env.partial or x in env.consts or env.types.get(x) == SAVE:
+            self.fail(e, "the comprehension variable %r hides a name the translation needs" % x)
+        inner = env.copy()
+        inner.types[x] = elt_ty
+        inner.sym[x] = self.opaque()
+        inner.fresh.discard(x)
+        src = _paren(l)
+        for c in g.ifs:
+            src = "(filter (fun %s => %s) %s)" % (x, self.cond(c, inner), src)
+            inner.nonzero |= self.facts(c, True, inner)
+        t, ty = self.expr(e.elt, inner)
+        out_ty = {NODE: PT, ITEM: ITEMS}.get(ty)
+        if out_ty is None:
+            self.fail(e, "a comprehension building a list of %s" % ty)
+        return "map (fun %s => %s) %s" % (x, t, src), out_ty
 
     def subscript(self, e, env):
         if not isinstance(e.ctx, ast.Load):
             self.fail(e, "unsupported use of a subscript")
-        # self.grammar[t][i]['prob']
-        if isinstance(e.slice, ast.Constant) and e.slice.value == "prob" and isinstance(e.value, ast.Subscript):
-            row = self.grammar_row(e.value.value, env)
-            if row is not None:
-                i, ti = self.expr(e.value.slice, env)
-                if ti != NAT:
-                    self.fail(e, "group index must be an int")
-                return "sub undef_prob (%s) %s" % (row, _paren(i)), P
-        if self.grammar_row(e, env) is not None or self.grammar_row(e.value, env) is not None:
-            self.fail(e, "self.grammar may only be used as self.grammar[t][i]['prob'] and len(self.grammar[t])")
+        if self.is_copy(e):
+            return self.copy_of(e, env)
+        # self.grammar[t]  ->  groups rs t   (the list of the variable's groups)
+        if self.is_self_attr(e.value, "grammar"):
+            t, ty = self.expr(e.slice, env)
+            if ty != NAT:
+                self.fail(e, "self.grammar[...] must be indexed by a variable id")
+            return "groups rs %s" % _paren(t), ROW
         if isinstance(e.value, ast.Name) and e.value.id in env.partial:
             d = env.partial[e.value.id]
             if not (isinstance(e.slice, ast.Constant) and e.slice.value in d["fields"]):
@@ -372,20 +605,24 @@ class FunctionTranslator:
                 field = {"prob": ("bprob", P), "replacements": ("brepl", VARS)}.get(e.slice.value)
             elif tv == ITEM:
                 field = ITEM_KEYS.get(e.slice.value)
+            elif tv == GROUP and e.slice.value == "prob":
+                return v, P          # a group is represented by its probability
             else:
                 field = None
             if field is None:
-                self.fail(e, "unsupported string subscript")
+                self.fail(e, "unsupported string subscript (of a value of type %s)" % tv)
             return "%s %s" % (field[0], _paren(v)), field[1]
         if tv == NODE:
             if isinstance(e.slice, ast.Constant) and e.slice.value in (0, 1) and type(e.slice.value) is int:
                 return "%s %s" % ("fst" if e.slice.value == 0 else "snd", _paren(v)), NAT
             self.fail(e, "a node may only be subscripted by the constants 0 and 1")
-        if tv == PT:
+        if tv in (PT, ROW):
             i, ti = self.expr(e.slice, env)
             if ti != NAT:
                 self.fail(e, "list index must be an int")
-            return "sub undef_node %s %s" % (_paren(v), _paren(i)), NODE
+            if tv == ROW:
+                return "sub %s %s %s" % (self.undef(e, "undef_prob"), _paren(v), _paren(i)), GROUP
+            return "sub %s %s %s" % (self.undef(e, "undef_node"), _paren(v), _paren(i)), NODE
         self.fail(e, "subscript of a value of type %s" % tv)
 
     def dict_literal(self, e, env):
@@ -427,27 +664,120 @@ class FunctionTranslator:
     def call(self, e, env):
         f = e.func
         if self.is_copy(e):
-            v, tv = self.expr(e.args[0], env)
-            if tv != PT:
-                self.fail(e, "copy.copy of a value of type %s" % tv)
-            return v, PT
+            return self.copy_of(e, env)
         if isinstance(f, ast.Name) and f.id == "len" and len(e.args) == 1 and not e.keywords:
-            row = self.grammar_row(e.args[0], env)
-            if row is not None:
-                return "length (%s)" % row, NAT
             v, tv = self.expr(e.args[0], env)
-            if tv not in (PT, ITEMS):
+            if tv not in (PT, ITEMS, ROW, VARS):
                 self.fail(e, "len of a value of type %s" % tv)
             return "length %s" % _paren(v), NAT
         if self.is_self_attr(f):
             if f.attr == self.spec["py"]:
                 self.fail(e, "the recursive call is supported as a statement only")
             spec = self.done.get(f.attr)
+            if spec is None and f.attr in self.helpers:
+                return self.inline(e, env)
             if spec is None or spec["ret"] == UNIT:
-                self.fail(e, "call of a function the translator has not translated before")
+                self.fail(e, "call of a method that is neither translated before nor a plain method of the class")
             args = self.bind_args(e, spec, env)
-            return "%s rs %s" % (spec["coq"], " ".join(_paren(a) for a in args)), spec["ret"]
+            return "%s %s" % (self.call_spec(e, spec), " ".join(_paren(a) for a in args)), spec["ret"]
         self.fail(e, "unsupported call")
+
+    def copy_of(self, e, env):
+        """copy.copy(x) / list(x) / x.copy() / x[:] of a parse tree: the same Coq list (a new Python list, which is
+        what makes item assignment on it acceptable)"""
+        if isinstance(e, ast.Call) and isinstance(e.func, ast.Name) and (e.func.id in env.types or e.func.id in env.consts):
+            self.fail(e, "%r is a local variable here" % e.func.id)
+        v, tv = self.expr(self.copied(e), env)
+        if tv != PT:
+            self.fail(e, "a shallow copy of a value of type %s" % tv)
+        return v, PT
+
+    def inline(self, e, env):
+        """self.h(args) for another method h of the class: the body of h, translated at this call with the
+        parameters bound to the arguments (lets; an int literal argument - also a negative one - is substituted).
+        The types of the parameters are those of the arguments; what is known about the arguments (`> 0`, the alias
+        of a list) is known about the parameters.  -> (parenthesised Gallina expression, type)"""
+        name = e.func.attr
+        fn = self.helpers[name]
+        chain, t = [], self
+        while t is not None:
+            chain.append(t.fn.name)
+            t = t.parent
+        if name in chain:
+            self.fail(e, "recursive helper %s" % name)
+        if self.depth >= MAX_INLINE_DEPTH:
+            self.fail(e, "helpers nested too deeply")
+        a = fn.args
+        if fn.decorator_list or a.vararg or a.kwarg or a.kwonlyargs or a.posonlyargs or a.kw_defaults \
+                or not a.args or a.args[0].arg != "self" or fn.returns is not None \
+                or any(x.annotation is not None for x in a.args):
+            self.fail(e, "the signature of the helper %s (line %d) is not supported" % (name, fn.lineno))
+        params = [x.arg for x in a.args[1:]]
+        defaults = dict(zip(params[len(params) - len(a.defaults):], a.defaults))
+        given = {}
+        if len(e.args) > len(params):
+            self.fail(e, "too many arguments")
+        for n, arg in zip(params, e.args):
+            if isinstance(arg, ast.Starred):
+                self.fail(e, "unsupported argument")
+            given[n] = (arg, env)
+        for kw in e.keywords:
+            if kw.arg is None or kw.arg in given or kw.arg not in params:
+                self.fail(e, "unsupported keyword argument")
+            given[kw.arg] = (kw.value, env)
+        spec = dict(py=name, coq=None, params=[], ret=None)
+        sub = FunctionTranslator(self.path, self.rel, fn, spec, self.done, self.helpers, parent=self)
+        inner = Env()
+        inner.tag = env.tag
+        inner.nonzero = set(env.nonzero)
+        dump = ast.dump(fn, include_attributes=False)
+        self.inlined[name] = hashlib.sha256(dump.encode("utf-8")).hexdigest()
+        head = "(* inlined: def %s, lines %d-%d%%s *)" % (name, fn.lineno, fn.end_lineno)
+        lets, bound = [], []
+        for n in params:
+            sub.check_name(fn, n)
+            if n not in given:
+                if n not in defaults:
+                    self.fail(e, "missing argument %r" % n)
+                c = sub.const_int(defaults[n], Env())
+                if c is None:
+                    self.fail(e, "the default of %r is not an int literal" % n)
+                inner.consts[n] = c
+                continue
+            arg, aenv = given[n]
+            c = self.const_int(arg, aenv)
+            if c is not None:
+                inner.consts[n] = c
+                continue
+            t, ty = self.expr(arg, aenv)
+            if ty not in LOCAL_TYPES:
+                self.fail(arg, "argument of type %s" % ty)
+            # sequential lets: an argument must not mention a parameter bound before it (unless it is that very name)
+            for m in ast.walk(arg):
+                if isinstance(m, ast.Name) and m.id in bound and not (isinstance(arg, ast.Name) and arg.id == n):
+                    self.fail(e, "the argument for %r mentions the name of an earlier parameter of %s" % (n, name))
+            bound.append(n)
+            inner.types[n] = ty
+            inner.sym[n] = self.sym(arg, aenv) if ty in (NAT, NODE, PT) else self.opaque()
+            lets.append("let %s := %s in" % (n, t))
+        head = head % "".join(", %s = %d" % kv for kv in sorted(inner.consts.items()))
+        rets = []
+
+        def ret(node, text, ty):
+            rets.append((ty, sub.last_ret_fresh))
+            return text
+
+        k = K(lambda _n: sub.fail(fn, "the helper can end without a return statement"),
+              lambda n: sub.fail(n, "continue outside a loop"), ret)
+        body = sub.block(list(fn.body), inner, k, 0)
+        if not rets or len({ty for ty, _ in rets}) != 1 or rets[0][0] not in LOCAL_TYPES:
+            self.fail(e, "the helper %s returns values of types %r" % (name, sorted({str(ty) for ty, _ in rets})))
+        if all(fr for _, fr in rets):
+            self.fresh_calls.add(id(e))
+        lines = lets + body.rstrip("\n").split("\n")
+        lines[0] += "   " + head
+        text = "(" + "\n ".join(lines) + "\n"
+        return _close(text, ")").rstrip("\n"), rets[0][0]
 
     def bind_args(self, e, spec, env):
         """positional / keyword arguments of a call of a SPECS function -> texts in parameter
@@ -530,7 +860,7 @@ class FunctionTranslator:
                 elif isinstance(n, ast.For):
                     target(n.target)
                 elif isinstance(n, (ast.NamedExpr, ast.Delete, ast.Global, ast.Nonlocal, ast.With, ast.Import,
-                                    ast.ImportFrom, ast.FunctionDef, ast.ClassDef, ast.Lambda, ast.ListComp,
+                                    ast.ImportFrom, ast.FunctionDef, ast.ClassDef, ast.Lambda,
                                     ast.SetComp, ast.DictComp, ast.GeneratorExp, ast.Try, ast.While)):
                     self.fail(n, "unsupported construct")
                 elif isinstance(n, ast.Call):
@@ -560,10 +890,11 @@ class FunctionTranslator:
 
     def line(self, ind, text, s=None, header=False):
         pad = "  " * ind
+        text = text.replace("\n", "\n" + pad + "  ")      # an inlined helper spans several lines
         if s is None:
             return pad + text + "\n"
         first = pad + text
-        return first + " " * max(2, 66 - len(first)) + self.note(s, header) + "\n"
+        return first + " " * max(2, 66 - len(first.rsplit("\n", 1)[-1])) + self.note(s, header) + "\n"
 
     def block(self, stmts, env, k, ind):
         if not stmts:
@@ -579,6 +910,8 @@ class FunctionTranslator:
             if s.value is None or (isinstance(s.value, ast.Constant) and s.value.value is None):
                 return self.line(ind, k.ret(s, None, UNIT), s)
             t, ty = self.expr(s.value, env)
+            self.last_ret_fresh = (isinstance(s.value, ast.Name) and s.value.id in env.fresh) \
+                or isinstance(s.value, ast.ListComp) or self.is_copy(s.value) or id(s.value) in self.fresh_calls
             return self.line(ind, k.ret(s, t, ty), s)
         if isinstance(s, ast.Continue):
             if rest:
@@ -587,12 +920,17 @@ class FunctionTranslator:
         if isinstance(s, ast.Assign):
             return self.assign(s, env, ind) + self.block(rest, env, k, ind)
         if isinstance(s, ast.AugAssign):
-            if not (isinstance(s.target, ast.Name) and isinstance(s.op, ast.Mult)):
-                self.fail(s, "only `x *= e` on probabilities is supported")
+            if not (isinstance(s.target, ast.Name) and isinstance(s.op, (ast.Mult, ast.Add))) or s.target.id in env.consts:
+                self.fail(s, "only `x *= e` on probabilities and `x += e` on ints are supported")
             x = s.target.id
+            t, ty = self.expr(s.value, env)
+            if isinstance(s.op, ast.Add):
+                if env.types.get(x) != NAT or ty != NAT:
+                    self.fail(s, "`+=` is supported on ints only")
+                env.sym[x] = self.opaque()
+                return self.line(ind, "let %s := %s + %s in" % (x, x, _paren(t)), s) + self.block(rest, env, k, ind)
             if env.types.get(x) != P:
                 self.fail(s, "`*=` on a value that is not a probability")
-            t, ty = self.expr(s.value, env)
             if ty != P:
                 self.fail(s, "`*=` by a value of type %s" % ty)
             return self.line(ind, "let %s := pmul %s %s in" % (x, x, _paren(t)), s) + self.block(rest, env, k, ind)
@@ -611,6 +949,8 @@ class FunctionTranslator:
             self.fail(node, "%r changes its type from %s to %s" % (name, old, ty))
         if old == SAVE:
             self.fail(node, "the callback is rebound")
+        if name in env.consts:
+            self.fail(node, "a parameter bound to an int literal is rebound")
         env.types[name] = ty
         env.fresh.discard(name)
 
@@ -632,15 +972,35 @@ class FunctionTranslator:
                 env.sym[t.id] = self.opaque()
                 return self.line(ind, "let %s := @nil (Next.item A) in" % t.id, s)
             text, ty = self.expr(v, env)
-            if ty not in (P, NAT, BOOL, NODE, PT, ITEM, ITEMS):
+            if ty not in LOCAL_TYPES:
                 self.fail(s, "unsupported value")
             sym = self.sym(v, env) if ty in (NAT, NODE, PT) else self.opaque()
             self.escape(v, env)
             self.bind(s, t.id, ty, env)
             env.sym[t.id] = sym
-            if self.is_copy(v):
-                env.fresh.add(t.id)
+            if self.is_copy(v) or isinstance(v, ast.ListComp) or id(v) in self.fresh_calls:
+                env.fresh.add(t.id)          # a new list nothing else refers to
             return self.line(ind, "let %s := %s in" % (t.id, text), s)
+        if isinstance(t, ast.Tuple):
+            # a, b = node
+            if not (len(t.elts) == 2 and all(isinstance(x, ast.Name) for x in t.elts)) or t.elts[0].id == t.elts[1].id:
+                self.fail(s, "only `a, b = node` is supported as a tuple assignment")
+            names = [x.id for x in t.elts]
+            for m in ast.walk(s.value):
+                if isinstance(m, ast.Name) and m.id in names:
+                    self.fail(s, "a name assigned by the tuple assignment occurs on its right-hand side")
+            text, ty = self.expr(s.value, env)
+            if ty != NODE:
+                self.fail(s, "tuple assignment from a value of type %s" % ty)
+            base = self.sym(s.value, env)
+            out = ""
+            for n, (x, proj) in enumerate(zip(names, ("fst", "snd"))):
+                if x in env.partial:
+                    self.fail(s, "a dict under construction is rebound")
+                self.bind(s, x, NAT, env)
+                env.sym[x] = "%s[%d]" % (base, n)
+                out += self.line(ind, "let %s := %s %s in" % (x, proj, _paren(text)), s if n == 0 else None)
+            return out
         if isinstance(t, ast.Subscript) and isinstance(t.value, ast.Name):
             x = t.value.id
             if env.types.get(x) != PT or x not in env.fresh:
@@ -770,28 +1130,20 @@ class FunctionTranslator:
             args = self.bind_args(c, self.spec, env)
             for a in list(c.args) + [kw.value for kw in c.keywords]:
                 self.escape(a, env)
-            return self.line(ind, "let saved := extend saved (%s fuel' rs %s) in"
-                             % (self.spec["coq"], " ".join(_paren(a) for a in args)), s)
+            head = " ".join([self.spec["coq"]] + self.spec["undef"] + ["fuel'", "rs"])
+            return self.line(ind, "let saved := extend saved (%s %s) in"
+                             % (head, " ".join(_paren(a) for a in args)), s)
         self.fail(s, "unsupported call statement")
 
-    def zero_test(self, test, env):
-        """`e == 0` -> canonical text of e (known > 0 where the test failed), else None"""
-        if isinstance(test, ast.Compare) and len(test.ops) == 1 and isinstance(test.ops[0], ast.Eq) \
-                and isinstance(test.comparators[0], ast.Constant) and test.comparators[0].value == 0 \
-                and type(test.comparators[0].value) is int:
-            return self.sym(test.left, env)
-        return None
-
     def if_(self, s, rest, env, k, ind):
-        c, tc = self.expr(s.test, env)
-        if tc != BOOL:
-            self.fail(s, "condition of type %s (truthiness of other values is not supported)" % tc)
+        c = self.cond(s.test, env)
         body, orelse = list(s.body), list(s.orelse)
         bt, et = self.terminates(body), self.terminates(orelse)
-        z = self.zero_test(s.test, env)
         env_t, env_f = env.copy(), env.copy()
-        if z is not None:
-            env_f.nonzero.add(z)
+        # what the test shows about ints being > 0, on either side (`if e == 0: continue`, `if e != 0:`, `if e > 0:`,
+        # `if a == b or e == 0: continue`, ...)
+        env_t.nonzero |= self.facts(s.test, True, env)
+        env_f.nonzero |= self.facts(s.test, False, env)
         head = self.line(ind, "if %s then" % c, s, header=True)
         if not rest or bt or et:
             if rest and bt and et:
@@ -827,34 +1179,46 @@ class FunctionTranslator:
                 env.fresh.discard(n)
         return out + self.block(rest, env, k, ind)
 
+    def node_target(self, s, t):
+        """loop target standing for a node: `item` -> (item, None);  `(a, b)` -> (a fresh name for the node, (a, b))"""
+        if isinstance(t, ast.Name):
+            return t.id, None
+        if isinstance(t, ast.Tuple) and len(t.elts) == 2 and all(isinstance(x, ast.Name) for x in t.elts):
+            a, b = t.elts[0].id, t.elts[1].id
+            return "%s_%s_node" % (a, b), (a, b)
+        self.fail(s, "unsupported loop target")
+
     def for_(self, s, rest, env, k, ind):
         if s.orelse:
             self.fail(s, "for ... else")
         it = s.iter
         inner = env.copy()
         names = [n for n in self.assigned(s.body) if n in env.types or n == "saved"]
-        binders = []
+        binders, unpack = [], None
         if isinstance(it, ast.Call) and isinstance(it.func, ast.Name) and it.func.id == "enumerate" \
                 and len(it.args) == 1 and not it.keywords:
             if not (isinstance(s.target, ast.Tuple) and len(s.target.elts) == 2
-                    and all(isinstance(x, ast.Name) for x in s.target.elts)):
-                self.fail(s, "enumerate needs the target `pos, item`")
+                    and isinstance(s.target.elts[0], ast.Name)):
+                self.fail(s, "enumerate needs the target `pos, item` or `pos, (a, b)`")
             lst = it.args[0]
             l, tl = self.expr(lst, env)
-            if tl != PT or not isinstance(lst, ast.Name):
-                self.fail(s, "enumerate of something that is not a parse-tree variable")
-            pos, x = s.target.elts[0].id, s.target.elts[1].id
+            if tl != PT:
+                self.fail(s, "enumerate of something that is not a parse tree")
+            pos = s.target.elts[0].id
+            x, unpack = self.node_target(s, s.target.elts[1])
             binders = [(pos, NAT), (x, NODE)]
             psym = self.opaque()
             inner.sym[pos] = psym
             inner.sym[x] = "%s[%s]" % (self.sym(lst, env), psym)
-            head = "for_enum %s (fun %s %s %%s =>" % (l, pos, x)
+            head = "for_enum %s (fun %s %s %%s =>" % (_paren(l), pos, x)
+            if not isinstance(lst, ast.Name):
+                lst = None         # not a local list: nothing in the subset can change it
         elif isinstance(it, ast.Call) and isinstance(it.func, ast.Name) and it.func.id == "range" \
-                and len(it.args) == 2 and not it.keywords:
+                and len(it.args) in (1, 2) and not it.keywords:
             if not isinstance(s.target, ast.Name):
                 self.fail(s, "range needs a single target")
-            a, ta = self.expr(it.args[0], env)
-            b, tb = self.expr(it.args[1], env)
+            a, ta = self.expr(it.args[0], env) if len(it.args) == 2 else ("0", NAT)
+            b, tb = self.expr(it.args[-1], env)
             if (ta, tb) != (NAT, NAT):
                 self.fail(s, "range of non-ints")
             for arg in it.args:
@@ -866,21 +1230,24 @@ class FunctionTranslator:
             head = "for_range %s %s (fun %s %%s =>" % (_paren(a), _paren(b), s.target.id)
             lst = None
         elif isinstance(it, (ast.Name, ast.Attribute, ast.Subscript)):
-            if not isinstance(s.target, ast.Name):
-                self.fail(s, "unsupported loop target")
             l, tl = self.expr(it, env)
-            inner.sym[s.target.id] = self.opaque()
-            if tl == PT and isinstance(it, ast.Name):
-                lst = it
-                binders = [(s.target.id, NODE)]
-                head = "for_each %s (fun %s %%s =>" % (l, s.target.id)
+            if tl == PT:
+                lst = it if isinstance(it, ast.Name) else None
+                x, unpack = self.node_target(s, s.target)
+                inner.sym[x] = self.opaque()
+                binders = [(x, NODE)]
+                head = "for_each %s (fun %s %%s =>" % (_paren(l), x)
+            elif not isinstance(s.target, ast.Name):
+                self.fail(s, "unsupported loop target")
             elif tl == VARS:
+                inner.sym[s.target.id] = self.opaque()
                 lst = None         # nothing in the subset can change a list of this type
                 binders = [(s.target.id, NAT)]
                 head = "for_each %s (fun %s %%s =>" % (_paren(l), s.target.id)
             elif tl == BASES:
                 # the position in self.base is the ghost tag of the items built in the body
                 lst = None
+                inner.sym[s.target.id] = self.opaque()
                 tag = s.target.id + "_tag"
                 binders = [(tag, NAT), (s.target.id, BASE)]
                 inner.sym[tag] = self.opaque()
@@ -892,13 +1259,19 @@ class FunctionTranslator:
             self.fail(s, "unsupported loop")
         if lst is not None and lst.id in names:
             self.fail(s, "the iterated list is assigned or mutated in the loop")
-        for n, ty in binders:
-            if n in env.types:
+        for n, ty in binders + [(n, NAT) for n in (unpack or ())]:
+            if n in env.types or n in env.consts or n in env.partial:
                 self.fail(s, "the loop variable %r is already bound" % n)
             self.check_name(s, n)
             inner.types[n] = ty
-        if len({n for n, _ in binders}) != len(binders):
+        if len({n for n, _ in binders} | set(unpack or ())) != len(binders) + len(unpack or ()):
             self.fail(s, "loop variables collide")
+        pre = ""
+        if unpack:        # for ..., (a, b) in ...:  the node is named, its components are let-bound
+            x = binders[-1][0]
+            for n, proj, k_ in zip(unpack, ("fst", "snd"), (0, 1)):
+                inner.sym[n] = "%s[%d]" % (inner.sym[x], k_)
+                pre += self.line(ind + 2, "let %s := %s %s in" % (n, proj, x))
         for n in names:
             inner.sym[n] = self.opaque()
             env.sym[n] = self.opaque()
@@ -907,7 +1280,7 @@ class FunctionTranslator:
         body_k = K(lambda _n: cont, lambda _n: cont,
                    lambda n, t, ty: "Return %s" % _paren(k.ret(n, t, ty)))
         out = self.line(ind, head % pat, s, header=True)
-        out += _close(self.block(list(s.body), inner, body_k, ind + 2), ")")
+        out += pre + _close(self.block(list(s.body), inner, body_k, ind + 2), ")")
         self.merge_partial(s, env, inner)
         # a list is still fresh after the loop only if the body did not store it
         for n in list(env.fresh):
@@ -941,25 +1314,27 @@ class FunctionTranslator:
 
         k = K(fall, lambda n: self.fail(n, "continue outside a loop"), ret)
         params = " ".join("(%s : %s)" % (n, COQ_TYPE[ty]) for n, ty in spec["params"] if ty != SAVE)
+        undef = " ".join("(%s : %s)" % (u, UNDEF_TYPE[u]) for u in spec["undef"])
         result = COQ_TYPE[ITEMS] if self.trace else COQ_TYPE[ret_ty]
         dump = ast.dump(fn, include_attributes=False)
         sha = hashlib.sha256(dump.encode("utf-8")).hexdigest()
-        out = "(* %s  class %s  def %s  lines %d-%d\n   sha256 of ast.dump: %s%s *)\n" % (
+        body = ""
+        if self.trace:
+            body += self.line(1, "let saved := @nil (Next.item A) in")
+        body += self.block(list(fn.body), env, k, 1)
+        out = "(* %s  class %s  def %s  lines %d-%d\n   sha256 of ast.dump: %s%s%s *)\n" % (
             self.rel, CLASS, fn.name, fn.lineno, fn.end_lineno, sha,
+            "".join("\n   inlined helper %s, sha256 of ast.dump: %s" % kv for kv in sorted(self.inlined.items())),
             "\n   returns None; the value below is the sequence of save_function calls.  Defaults: %s."
             "\n   [fuel] bounds the depth of the recursion (no counterpart in Python; 0 = give up)"
             % ", ".join("%s = %d" % kv for kv in sorted(spec.get("defaults", {}).items())) if self.trace else "")
         ind = 1
         if self.uses_fuel:
-            out += "Fixpoint %s (fuel : nat) (rs : Next.ruleset A) %s {struct fuel} : %s :=\n" % (
-                spec["coq"], params, result)
+            out += "Fixpoint %s %s (fuel : nat) (rs : Next.ruleset A) %s {struct fuel} : %s :=\n" % (
+                spec["coq"], undef, params, result)
             out += "  match fuel with\n  | O => nil\n  | S fuel' =>\n"
         else:
-            out += "Definition %s (rs : Next.ruleset A) %s : %s :=\n" % (spec["coq"], params, result)
-        body = ""
-        if self.trace:
-            body += self.line(ind, "let saved := @nil (Next.item A) in")
-        body += self.block(list(fn.body), env, k, ind)
+            out += "Definition %s %s (rs : Next.ruleset A) %s : %s :=\n" % (spec["coq"], undef, params, result)
         out += _close(body, "\n  end." if self.uses_fuel else ".")
         return out, sha
 
@@ -984,6 +1359,18 @@ def render(repo=None):
     # module level, `self._find_prob = ...`, setattr) would make the translated def not the
     # one that runs; patches from other modules are out of the translator's sight
     names = {s["py"] for s in SPECS}
+    helpers = {n: d for n, d in defs.items() if n not in names and isinstance(d, ast.FunctionDef)}
+    parts, done, inlined = [], {}, {}
+    for spec in SPECS:
+        fn = defs.get(spec["py"])
+        if not isinstance(fn, ast.FunctionDef):
+            raise TranslateError("%s: %s.%s not found" % (path, CLASS, spec["py"]))
+        tr = FunctionTranslator(path, SOURCE, fn, spec, done, helpers)
+        text, sha = tr.translate()
+        parts.append(text)
+        inlined.update(tr.inlined)
+        done[spec["py"]] = spec
+    names |= set(inlined)          # the helpers that were inlined must be the methods that run, too
     for n in ast.walk(tree):
         if isinstance(n, (ast.Assign, ast.AugAssign, ast.AnnAssign, ast.Delete)):
             targets = n.targets if isinstance(n, (ast.Assign, ast.Delete)) else [n.target]
@@ -994,14 +1381,6 @@ def render(repo=None):
                         raise TranslateError("%s:%d: %s is rebound" % (path, n.lineno, ast.unparse(t)))
         if isinstance(n, ast.Name) and n.id in ("setattr", "delattr", "__dict__"):
             raise TranslateError("%s:%d: %s is used in the module" % (path, n.lineno, n.id))
-    parts, done = [], {}
-    for spec in SPECS:
-        fn = defs.get(spec["py"])
-        if not isinstance(fn, ast.FunctionDef):
-            raise TranslateError("%s: %s.%s not found" % (path, CLASS, spec["py"]))
-        text, sha = FunctionTranslator(path, SOURCE, fn, spec, done).translate()
-        parts.append(text)
-        done[spec["py"]] = spec
     head = (
         "(* GENERATED by harness/translate_kernel.py from the Python source of the current\n"
         "   working tree (%s, class %s) on every run of a check.  Do not edit.\n"
@@ -1014,8 +1393,8 @@ def render(repo=None):
         "Import ListNotations.\n\n"
         "Section Kernel.\n"
         "Context {A : palg}.\n"
-        "(* the value of a subscript that raises in Python (see KernelRt.v) *)\n"
-        "Context (undef_prob : ProbAlg.P A) (undef_node : Next.var * nat).\n\n" % (SOURCE, CLASS))
+        "(* undef_prob / undef_node: the value of a subscript that raises in Python (see KernelRt.v); the\n"
+        "   parameters are fixed per function by the translator, whether the body uses them or not *)\n\n" % (SOURCE, CLASS))
     return head + "\n".join(parts) + "\nEnd Kernel.\n"
 
 
